@@ -205,6 +205,16 @@ def escape_coverage_rule(crate, syn, prop, rule="C04.R10"):
         return r
     need = ["\\", '"', "\n", "\r"]
     reps, switched = [], set()
+    # a helper the routine shares with others (`push_escaped(&mut buf, text)`, also used to quote property names) is part of it
+    seen_paths = {x.path for x in bodies}
+    for bx in list(bodies):
+        for blk, tt in bx.calls():
+            if bx.is_cleanup(blk):
+                continue
+            for hb in crate.call_targets(bx, tt, ()):
+                if hb.path.startswith("utils::") and hb.path not in seen_paths:
+                    seen_paths.add(hb.path)
+                    bodies = bodies + [hb]
     for b in bodies:
         for blk in M.rpo(b):
             if b.is_cleanup(blk):
@@ -222,7 +232,9 @@ def escape_coverage_rule(crate, syn, prop, rule="C04.R10"):
     missing = [c for c in need if c not in handled]
     order_ok = not reps or "\\" not in reps or reps[0] == "\\" or "\\" in switched
     r.inst(fn=b0.path, replace_chain=[repr(c) for c in reps], single_pass_cases=sorted(repr(c) for c in switched), missing=[repr(c) for c in missing], backslash_first=order_ok)
-    if missing:
+    if missing and not handled:
+        r.fail(prop, "anchor-missing character handling in escape_string", "neither a replace chain nor a branch on characters found in escape_string and its helpers", b0.file(), b0.line())
+    elif missing:
         r.fail(prop, "escape-incomplete utils::escape_string %s" % ",".join(repr(c).strip("'") for c in missing),
                "escape_string leaves %s as it is: `#[ts(rename = \"a\\nb\")]` (or a tag / variant name with a line break) puts a raw line break inside a double-quoted TypeScript string" % ", ".join(repr(c) for c in missing),
                b0.file(), b0.line())
